@@ -1,7 +1,6 @@
 """Classes and functions related to namespace objects."""
 
 import argparse
-from collections import OrderedDict
 from contextlib import contextmanager
 from typing import (
     Any,
@@ -73,9 +72,10 @@ def strip_meta(cfg):
 
 def recreate_branches(data, skip_keys=None):
     new_data = data
-    if isinstance(data, (Namespace, dict)) and not isinstance(data, OrderedDict):
+    if isinstance(data, (Namespace, dict)):
         new_data = type(data)()
-        for key, val in getattr(data, "__dict__", data).items():
+        items = vars(data) if isinstance(data, Namespace) else data  # (an OrderedDict has an instance __dict__ too)
+        for key, val in items.items():
             if skip_keys is None or key not in skip_keys:
                 new_data[key] = recreate_branches(val, skip_keys)
     elif isinstance(data, list):
